@@ -401,6 +401,16 @@ func genStop(t *rapid.T) stopCase {
 	if c.StopAt == "serving" {
 		c.Conns = rapid.IntRange(0, 5).Draw(t, "conns")
 		c.InFlight = rapid.IntRange(0, 5).Draw(t, "inflight")
+		// more requests in flight than a session's queue (32) holds: its reader is parked, not reading; and, rarely, more over all
+		// sessions than the two queues of a backend connection (2 x 1024) hold: the readers are parked inside the backend client's Send
+		switch rapid.IntRange(0, 11).Draw(t, "deep") {
+		case 0, 1:
+			c.InFlight = rapid.SampledFrom([]int{32, 33, 34, 40, 100, 400}).Draw(t, "inflight2")
+		case 2:
+			if vh.Thorough() || rapid.IntRange(0, 3).Draw(t, "rare") == 0 {
+				c.Conns, c.InFlight = rapid.IntRange(64, 90).Draw(t, "conns2"), 40
+			}
+		}
 	}
 	return c
 }
